@@ -179,6 +179,66 @@ def spec_reverse_session_end(ck):
     ck.bounds['reverse-udp-session-end'] = 'one terminal callback (on_error / on_finish) on the callback object of one session'
 
 
+def spec_udp_frame_reader(ck):
+    """UdpFrameReader::read (the client-facing side of a reverse / tproxy UDP session): "a receive error never materialises as a
+    datagram" -- when the socket reports an error (an ICMP port-unreachable on the connected socket surfaces as
+    ECONNREFUSED on the next receive) the reader must not hand out a frame."""
+    fn = ck.find(lambda: ck.db.method('UdpFrameReader', 'read', trait='FrameReader'), 'UdpFrameReader::read')
+    if fn is None:
+        return
+    ex = ck.engine(loop_bound=3, call_depth=8)
+    ex.benign_havoc = BENIGN
+    st = State()
+    recv_fails = z3.Bool('socket_receive_fails')
+    frame_cell = st.alloc(Agg('Frame', {0: C.mk_option(ex, None), 1: Int(BV(0, 32), 32), 2: Bytes.from_terms([], 'bytes')}))
+
+    def frame_new(ctx):
+        return ctx.ex.load(ctx.st, frame_cell, ())
+
+    def recv_from(ctx):
+        ctx.st.trace.append(('recv_from',))
+        return Future('udp-recv2', [])
+
+    @CA.awaiter('udp-recv2')
+    def _aw(ctx, fut):
+        okv = Agg('tuple', {0: Int(z3.BitVec('size', 64), 64, False), 1: Opaque('SocketAddr', 'peer')})
+        return Agg('Result', {}, simp(z3.If(recv_fails, BV(1, 64), BV(0, 64))), {0: {0: okv}, 1: {0: Opaque('std::io::Error', 'icmp')}}, ctx.ex.si.enums['Result'])
+
+    def chan_recv(ctx):
+        return Future('pending-forever', [])
+    for rx, f in ((r'Frame::new$', frame_new), (r'Frame::recv_from$', recv_from), (r'mpsc::Receiver::<Frame>::recv$', chan_recv)):
+        ex.overrides.append((re.compile(rx), f))
+    fields = ck.si.structs.get('UdpFrameReader', ['socket', 'target', 'extra_frame'])
+    me = Agg('UdpFrameReader', {fields.index('socket'): Ref(st.alloc(Opaque('UdpSocket', 'sock')), ()), fields.index('target'): Opaque('TargetAddress', 'target'),
+                                fields.index('extra_frame'): Opaque('mpsc::Receiver<Frame>', 'extra')})
+    ex.inputs = {'socket_receive_fails': recv_fails}
+    outs = run_async(ex, st, fn, [Ref(st.alloc(me), ())])
+    n = 0
+    for o, r in outs:
+        if o.status != 'returned' or r is None or ('recv_from',) not in o.trace:
+            continue
+        n += 1
+        ok, val = _ok_payload(r)
+        some = z3.BoolVal(False)
+        if isinstance(val, Agg) and val.discr is not None:
+            some = (BV(val.discr, 64) if isinstance(val.discr, int) else val.discr) == BV(1, 64)
+        ex.prove(o, 'C10/udp-reader/a-receive-error-never-materialises-as-a-datagram', z3.Implies(recv_fails, z3.Not(z3.And(ok, some))))
+    if not n:
+        ck.add('C10/udp-reader/reachability', 'vacuous', 'UdpFrameReader::read never returned after a receive in the model')
+    for f in ex.findings:
+        if not hasattr(f, 'target'):
+            f.target = 'udp frame reader'
+    ck.plans.append(_udp_reader_replay_plan)
+    ck.absorb(ex, 'UdpFrameReader::read', [o for o, _ in outs])
+    ck.bounds['udp-frame-reader'] = 'one read: the socket receive succeeds or fails, the side channel is not ready'
+
+
+def _udp_reader_replay_plan(ob):
+    if (ob.target or '') != 'udp frame reader' or not ob.label.startswith('C10/udp-reader/'):
+        return None
+    return 'udp', {'driver': 'reader_after_icmp_error', 'args': {}}, lambda o: o.get('error_seen_by_socket') is True and o.get('frame_handed_out') is True
+
+
 def replay_plan(ob):
     f = ob.finding
     if f is None or (ob.target or '') != 'reverse udp_accept' or not ob.label.startswith('C10/reverse-udp/every-accepted'):
